@@ -203,6 +203,8 @@ class Engine:
             for n, fv in v[3]:
                 if n == e:
                     return fv
+            if v[2] == 'new' and not v[3] and v[1] in QUEUE_ADTS and e in ('head', 'tail', 'root'):
+                return NONE       # a freshly made list / heap has no nodes
             g_ = getattr(self.F, 'group_fields', None)
             if g_ and (v[1], e) in g_:
                 sub_ = self.F.adts_orig.get(g_[(v[1], e)])
@@ -614,6 +616,11 @@ class Engine:
                 args.append(arg_values[i - 1])
                 continue
             name = names.get(i, 'arg%d' % i)
+            # rules that are written against a function's parameters by role may give them canonical names by position
+            # (parameter names are not vocabulary): {function name: [names]}
+            ov = (getattr(self, 'param_names', None) or {}).get(fn.get('name') or fn['path'].rsplit('::', 1)[-1])
+            if ov and i - 1 < len(ov) and name != 'self':
+                name = ov[i - 1]
             if self._alias and name == 'self':
                 name = 'outer_self'
             ty = fn['locals'][i]['ty']
@@ -745,12 +752,24 @@ class Engine:
         pv, inner = sh
         if pv == 'bool':
             return ('const', inner)
-        if pv == 'Pending':
-            return ('agg', POLL, 'Pending', ())
         vals = [x for _, x in rv[3]]
+
+        def with_extras(pollv):
+            # what the variant carries next to the verdict stays visible in the public order
+            # `(verdict, value handed back, waker to wake)`: fields whose type mentions Waker go last
+            a_ = self.F.adts.get(rv[1]) or {}
+            vdef = next((v_ for v_ in a_.get('variants', []) if v_['name'] == rv[2]), None)
+            tys = {f_['name']: (f_['ty'].get('str') or '') for f_ in (vdef or {}).get('fields', [])}
+            back = [x for n_, x in rv[3] if 'Waker' not in tys.get(n_, '') and x[0] != 'const']
+            wak = [x for n_, x in rv[3] if 'Waker' in tys.get(n_, '')]
+            if not back and not wak:
+                return pollv
+            return ('tuple', (pollv, back[0] if back else NONE, wak[0] if wak else NONE) + tuple(back[1:]) + tuple(wak[1:]))
+        if pv == 'Pending':
+            return with_extras(('agg', POLL, 'Pending', ()))
         payload = UNIT if not vals else (vals[0] if len(vals) == 1 else ('tuple', tuple(vals)))
         if inner is None:
-            return ('agg', POLL, 'Ready', (('0', UNIT),))
+            return with_extras(('agg', POLL, 'Ready', (('0', UNIT),)))
         adt_, var_ = inner
         if var_ in ('None',):
             return ('agg', POLL, 'Ready', (('0', ('agg', adt_, var_, ())),))
@@ -1370,6 +1389,32 @@ class Engine:
                 self.write(st, loc + ('start',), nxt)
                 outs.append((st, some(start)))
             return outs
+        # ---- iter::from_fn(next).for_each(f): `while let Some(x) = next() { f(x) }`, unrolled to the loop bound
+        if name == 'from_fn' and 'iter' in path and len(args) == 1:
+            return [(st, ('fromfn', args[0]))]
+        if name == 'for_each' and len(args) == 2 and args[0][0] == 'fromfn':
+            outs = []
+            work = [(st, 0)]
+            nxt_clo, f_clo = args[0][1], args[1]
+            while work:
+                st1, k = work.pop()
+                if k >= self.max_visits:
+                    st1.pruned += 1
+                    continue
+                for st2, item in self.call_closure(st1, nxt_clo, []):
+                    if item is PANIC:
+                        outs.append((st2, PANIC))
+                        continue
+                    for st3, inner in self._opt_split(st2, item):
+                        if inner is None:
+                            outs.append((st3, UNIT))
+                            continue
+                        for st4, rv4 in self.call_closure(st3, f_clo, [inner]):
+                            if rv4 is PANIC:
+                                outs.append((st4, PANIC))
+                            else:
+                                work.append((st4, k + 1))
+            return outs
         if name == 'identity' and 'convert' in path and len(args) == 1:
             return [(st, args[0])]
         # ---- iter::successors(first, f) and `.last()` on it: the walk `cur = first; while let Some(n) = f(&cur) { cur = n }`
@@ -1412,6 +1457,24 @@ class Engine:
                 outs.append((st_none, NONE))
             if self.assume(st, ('bin', 'Lt', a, b), 0):
                 outs.append((st, some(('bin', 'Sub', a, b))))
+            return outs
+        # ---- checked_add(a, b) is Some(a + b) iff the sum fits; for b == 1 that is `a != MAX` of the integer type
+        if name == 'checked_add' and len(args) == 2 and 'num' in path:
+            a, b = args
+            m_ = re.search(r'num::<impl (u8|u16|u32|u64|usize|u128)>', path) or re.search(r'\b(u8|u16|u32|u64|usize|u128)::checked_add', path)
+            width = {'u8': 8, 'u16': 16, 'u32': 32, 'u64': 64, 'usize': 64, 'u128': 128}.get(m_.group(1)) if m_ else None
+            outs = []
+            if b == ('const', 1) and width:
+                mx = ('const', (1 << width) - 1)
+                st_none = st.copy()
+                if self.assume(st_none, ('bin', 'Eq', a, mx), 1):
+                    outs.append((st_none, NONE))
+                if self.assume(st, ('bin', 'Eq', a, mx), 0):
+                    outs.append((st, some(('bin', 'Add', a, b))))
+                return outs
+            st_none = st.copy()
+            outs.append((st_none, NONE))
+            outs.append((st, some(('bin', 'Add', a, b))))
             return outs
         # ---- an Option used as a one-element iterator: opt.into_iter().for_each(f)
         if name == 'into_iter' and len(args) == 1 and 'option::Option' in path + (ci.get('gargs_str') or ''):
